@@ -299,7 +299,14 @@ impl Exec {
         let r = std::panic::catch_unwind(std::panic::AssertUnwindSafe(|| fut.as_mut().poll(&mut TCx::from_waker(&waker))));
         match r {
             Ok(Poll::Pending) => {
-                ev(json!({"ev": "block", "task": name}));
+                // `woken`: the task asked to be polled again while it ran (a cooperative yield, a wake-up it caused
+                // itself): it is suspended but runnable, which says nothing about what it is waiting for
+                let woken = self.0.borrow().tasks[ix].flag.0.load(Ordering::SeqCst);
+                if woken {
+                    ev(json!({"ev": "block", "task": name, "woken": true}));
+                } else {
+                    ev(json!({"ev": "block", "task": name}));
+                }
                 self.0.borrow_mut().tasks[ix].fut = Some(fut);
             }
             Ok(Poll::Ready(())) => {
